@@ -91,7 +91,14 @@ def frame_obligations():
                 continue
             reads = {e[2] for st in sts for e in st.events if e[0] == "read" and e[1] == SELF}
             writes = {e[2] for st in sts for e in st.events if e[0] == "store" and e[1] == SELF}
-            muts = [fx.show(e[2])[:60] for st in sts for e in st.events if e[0] == "mutate" and isinstance(e[1], tuple) and e[1][:2] == ("attr", SELF)]
+            # in-place changes of an option object (the user's kernel_params / metric_params dict) -- on any branch of a conditional alias
+            muts = [fx.show(e[2])[:60] for st in sts for e in st.events if e[0] == "mutate"
+                    for b_ in fx.branches(e[1]) if isinstance(b_, tuple) and b_[:2] == ("attr", SELF)]
+            for st in sts:
+                for e in st.events:
+                    if e[0] == "call" and e[2].endswith((".update", ".setdefault", ".pop", ".clear", ".popitem", ".append", ".extend", ".remove", ".insert", ".sort")) \
+                            and isinstance(e[6], tuple) and e[6][0] == "attr":
+                        muts += [e[2] for b_ in fx.branches(e[6][1]) if isinstance(b_, tuple) and b_[:2] == ("attr", SELF)]
             state = sorted(a for a in reads if (a not in opts or a in later) and not callable(getattr(cls, a, None)))
             from .repro import data_mutations
             args = {("var", n_) for n_ in ("X", "y", "y_pred", "affinity")}
